@@ -26,19 +26,19 @@ int main(int argc, char** argv) {
         if (!dsts && (w.size() != 8 || w[0] != "rt")) return "bad-op";
         std::string const &fmt = w[1], &pix = w[2], &org = w[dsts ? 1 : 3], &dev = w[dsts ? 1 : 4];
         int W = (int)hv::to_ll(w[dsts ? 3 : 5]), H = (int)hv::to_ll(w[dsts ? 4 : 6]); bytes px = unhex(w[dsts ? 5 : 7]);
-#define RT(F, P, TAG, IMG, PL, ALT) if (fmt == F && pix == P) { if (dsts) return destinations<gil::TAG, gil::IMG, 1>(W, H, px, path); \
-            return round_trip<gil::TAG, gil::IMG, 1, PL, ALT>(org, dev, W, H, px, path, true); }
+#define RT(F, P, TAG, IMG, PL, ALT, ALT2) if (fmt == F && pix == P) { if (dsts) return destinations<gil::TAG, gil::IMG, 1>(W, H, px, path); \
+            return round_trip<gil::TAG, gil::IMG, 1, PL, ALT, gil::TAG, ALT2>(org, dev, W, H, px, path, true); }
 #if C12_SEL == 0 || C12_SEL == 1
-        RT("bmp", "rgb8", bmp_tag, rgb8_image_t, gil::rgb8_planar_image_t, gil::bgr8_image_t)
+        RT("bmp", "rgb8", bmp_tag, rgb8_image_t, gil::rgb8_planar_image_t, gil::bgr8_image_t, void)
 #endif
 #if C12_SEL == 0 || C12_SEL == 2
-        RT("bmp", "rgba8", bmp_tag, rgba8_image_t, gil::rgba8_planar_image_t, gil::abgr8_image_t)
+        RT("bmp", "rgba8", bmp_tag, rgba8_image_t, gil::rgba8_planar_image_t, gil::bgra8_image_t, gil::abgr8_image_t)
 #endif
 #if C12_SEL == 0 || C12_SEL == 3
-        RT("pnm", "gray8", pnm_tag, gray8_image_t, void, void)
+        RT("pnm", "gray8", pnm_tag, gray8_image_t, void, void, void)
 #endif
 #if C12_SEL == 0 || C12_SEL == 4
-        RT("pnm", "rgb8", pnm_tag, rgb8_image_t, gil::rgb8_planar_image_t, gil::bgr8_image_t)
+        RT("pnm", "rgb8", pnm_tag, rgb8_image_t, gil::rgb8_planar_image_t, gil::bgr8_image_t, void)
 #endif
 #if C12_SEL == 0 || C12_SEL == 5
         // the gray1 writer overruns its row buffer for widths that are not a multiple of 8: run it in a child
@@ -47,10 +47,10 @@ int main(int argc, char** argv) {
                                              : round_trip_plain<gil::pnm_tag, gil::gray1_image_t, 1>(org, dev, W, H, px, path, true); });
 #endif
 #if C12_SEL == 0 || C12_SEL == 6
-        RT("targa", "rgb8", targa_tag, rgb8_image_t, gil::rgb8_planar_image_t, gil::bgr8_image_t)
+        RT("targa", "rgb8", targa_tag, rgb8_image_t, gil::rgb8_planar_image_t, gil::bgr8_image_t, void)
 #endif
 #if C12_SEL == 0 || C12_SEL == 7
-        RT("targa", "rgba8", targa_tag, rgba8_image_t, gil::rgba8_planar_image_t, gil::abgr8_image_t)
+        RT("targa", "rgba8", targa_tag, rgba8_image_t, gil::rgba8_planar_image_t, gil::bgra8_image_t, gil::abgr8_image_t)
 #endif
         return "unsupported";
     });
